@@ -302,8 +302,8 @@ PROPS = {
                 "are part of the shared token list; PROPCONTAIN (on implementation and on model): declarations before k keep their "
                 "sub-tree verbatim, declarations after k keep it up to the Reference offset, every lexical/syntax diagnostic lies in "
                 "the damaged segment; NEW (full analysis of the damaged program: implementation vs model). " + TEXT_RULE,
-        "unproved_parts": ["keywords_start_declarations (every proc/type keyword of ANY token sequence starts its own declaration node: damage never swallows a declaration keyword), prefix_verbatim (declarations in front of anything are parsed verbatim), global_resync, loop_resumes and following_declarations_as_before (wherever the declaration loop stands directly behind a token in front of the same tokens as in the undamaged sequence, it returns the undamaged program's sub-trees, each at its Reference offset moved by the position difference; Lemmas/Shift: index-shift invariance of all 16 functions of the grammar specification) ARE theorems; that the "
-                           "loop's iteration boundary behind the damage falls exactly on the start of the doc comments of the next declaration (keywords_start_declarations pins it to the comment run in front of the keyword) and the confinement of diagnostics to the damaged segment are evaluated (PROPCONTAIN) on implementation "
+        "unproved_parts": ["keywords_start_declarations (every proc/type keyword of ANY token sequence starts its own declaration node: damage never swallows a declaration keyword), prefix_verbatim (declarations in front of anything are parsed verbatim), global_resync, loop_resumes and following_declarations_as_before (wherever the declaration loop stands directly behind a token in front of the same tokens as in the undamaged sequence, it returns the undamaged program's sub-trees, each at its Reference offset moved by the position difference; Lemmas/Shift: index-shift invariance of all 16 functions of the grammar specification) and declarations_behind_damage_as_before (END TO END: every parse of ANY token sequence that goes on like the undamaged one from the start of a declaration d0 contains exactly the undamaged program's declarations from d0 on - identical sub-trees, offsets moved; Lemmas/FreshEnd: loop iterations start directly behind a token) ARE theorems; the "
+                           "confinement of diagnostics to the damaged segment and the symbol-table entries of the other declarations are evaluated (PROPCONTAIN, NEW) on implementation "
                            "and model, not theorems",
                            "hover/goto inside undamaged declarations are covered by C12-C14's own checks, not re-run here"],
     },
